@@ -135,6 +135,9 @@ type World struct {
 	sched scheduler
 	t0    time.Time
 
+	lastTOTP   map[int]string // account -> digits last submitted as a genuine TOTP code
+	mwMu       sync.Mutex
+	mwCache    map[string]func(http.Handler) http.Handler // guarded probe routes, mounted once per server process
 	lockMod    *lock.Lock
 	confirmMod *confirm.Confirm
 
@@ -498,6 +501,9 @@ func NewWorld(t *testing.T, cfg Config, seed uint64, concurrent bool) *World {
 // restart (re)builds the server side: fresh authboss instances over the
 // surviving user stores.
 func (w *World) restart() {
+	w.mwMu.Lock()
+	w.mwCache = map[string]func(http.Handler) http.Handler{}
+	w.mwMu.Unlock()
 	w.AB = w.newSite(false)
 	if w.Cfg.SecondSite {
 		w.AB2 = w.newSite(true)
@@ -602,6 +608,13 @@ func (w *World) newSite(second bool) *authboss.Authboss {
 		}
 	}
 
+	if cfg.AppLogoutHook && !second {
+		ab.Events.After(authboss.EventLogout, func(rw http.ResponseWriter, r *http.Request, handled bool) (bool, error) {
+			w.Stats.Reach["app_logout_hook_ran"]++
+			http.Redirect(rw, r, "/sso/end-session", http.StatusFound)
+			return true, nil
+		})
+	}
 	if err := ab.Init(cfg.Modules...); err != nil {
 		panic("sim: authboss init: " + err.Error())
 	}
@@ -706,6 +719,18 @@ func (w *World) serveProbe(rw http.ResponseWriter, r *http.Request) {
 		io.WriteString(rw, "probe-ok")
 	})
 	parts := strings.Split(strings.TrimPrefix(r.URL.Path, "/probe/"), "/")
+	// the application mounts each guarded route once, when it starts: the
+	// middleware values live as long as the server process (restart() drops them)
+	mounted := func(key string, build func() func(http.Handler) http.Handler) http.Handler {
+		w.mwMu.Lock()
+		mw, ok := w.mwCache[key]
+		if !ok {
+			mw = build()
+			w.mwCache[key] = mw
+		}
+		w.mwMu.Unlock()
+		return mw(final)
+	}
 	switch parts[0] {
 	case "open":
 		final.ServeHTTP(rw, r)
@@ -717,7 +742,9 @@ func (w *World) serveProbe(rw http.ResponseWriter, r *http.Request) {
 		reqs, _ := strconv.Atoi(parts[1])
 		mode, _ := strconv.Atoi(parts[2])
 		mp := parts[3] == "1"
-		authboss.MountedMiddleware2(ab, mp, authboss.MWRequirements(reqs), authboss.MWRespondOnFailure(mode))(final).ServeHTTP(rw, r)
+		mounted(strings.Join(parts[:4], "/"), func() func(http.Handler) http.Handler {
+			return authboss.MountedMiddleware2(ab, mp, authboss.MWRequirements(reqs), authboss.MWRespondOnFailure(mode))
+		}).ServeHTTP(rw, r)
 	case "legacy":
 		if len(parts) < 4 {
 			http.NotFound(rw, r)
@@ -726,15 +753,22 @@ func (w *World) serveProbe(rw http.ResponseWriter, r *http.Request) {
 		reqs, _ := strconv.Atoi(parts[1])
 		redirect := parts[2] == "1"
 		full, twofa := reqs&1 != 0, reqs&2 != 0
-		if parts[3] == "1" {
-			authboss.MountedMiddleware(ab, true, redirect, full, twofa)(final).ServeHTTP(rw, r)
-		} else {
-			authboss.Middleware(ab, redirect, full, twofa)(final).ServeHTTP(rw, r)
-		}
+		mounted(strings.Join(parts[:4], "/"), func() func(http.Handler) http.Handler {
+			if parts[3] == "1" {
+				return authboss.MountedMiddleware(ab, true, redirect, full, twofa)
+			}
+			return authboss.Middleware(ab, redirect, full, twofa)
+		}).ServeHTTP(rw, r)
 	case "lock":
-		authboss.Middleware2(ab, authboss.RequireNone, authboss.RespondNotFound)(lock.Middleware(ab)(final)).ServeHTTP(rw, r)
+		mounted("lock", func() func(http.Handler) http.Handler {
+			outer, inner := authboss.Middleware2(ab, authboss.RequireNone, authboss.RespondNotFound), lock.Middleware(ab)
+			return func(h http.Handler) http.Handler { return outer(inner(h)) }
+		}).ServeHTTP(rw, r)
 	case "confirm":
-		authboss.Middleware2(ab, authboss.RequireNone, authboss.RespondNotFound)(confirm.Middleware(ab)(final)).ServeHTTP(rw, r)
+		mounted("confirm", func() func(http.Handler) http.Handler {
+			outer, inner := authboss.Middleware2(ab, authboss.RequireNone, authboss.RespondNotFound), confirm.Middleware(ab)
+			return func(h http.Handler) http.Handler { return outer(inner(h)) }
+		}).ServeHTTP(rw, r)
 	default:
 		http.NotFound(rw, r)
 	}
